@@ -1,6 +1,7 @@
 SPECIFICATION GSpec
 CONSTANTS
-  Values = {1, 2, 3, 4}
+  Values = {0, 1, 2, 3}
+  NegMag = {2}
   Gaps = {0, 1}
   MaxLen = 4
 INVARIANT Emit
